@@ -499,6 +499,12 @@ def fault_cases(rng, song, multi_line, multi_track, family, per_kind=None):
             r = request(s2, kind)
             if r is None:
                 continue
+            if kind == "unterminated-cond":
+                # the reader finds the end of a block textually: a later loop break '/' or a later '}' on the
+                # same line would close the injected '{' (no fault of this kind is present then)
+                lines2, _, f2 = render(s2)
+                if "/" in lines2[f2[0]][f2[1] + 1:] or "}" in lines2[f2[0]][f2[1] + 1:]:
+                    continue
             g = song.groups[p[0]]
             where = "in-block" if p[2] is not None else "in-sub" if g.typ == "sub" else "on-channel"
             yield Case(r, base + [kind, where, "depth-%d" % min(p[4], 3)], family)
